@@ -94,11 +94,12 @@ type Sim struct {
 	Tape *Tape
 	Cfg  Config
 
-	tasks  []*Task
-	cur    *Task
-	now    time.Duration
-	timers []*timer
-	seq    uint64
+	tasks   []*Task
+	cur     *Task
+	now     time.Duration
+	timers  []*timer
+	pollers []func() bool
+	seq     uint64
 
 	Steps     int
 	Switches  int
@@ -301,6 +302,32 @@ func (s *Sim) Fatal(kind FailureKind, msg string) {
 	}
 }
 
+// AddPoller registers f to run inside the scheduler at every scheduling step until it returns false
+// (used to carry state changes of uninstrumented code, such as a cancelled parent context, into the
+// simulation at a deterministic point).
+func (s *Sim) AddPoller(f func() bool) { s.pollers = append(s.pollers, f) }
+
+func (s *Sim) runPollers() {
+	if len(s.pollers) == 0 {
+		return
+	}
+	keep := s.pollers[:0]
+	for _, f := range s.pollers {
+		if f() {
+			keep = append(keep, f)
+		}
+	}
+	s.pollers = keep
+}
+
+// Unsupported records that the code under test did something the simulator cannot represent
+// soundly; the run continues but its outcome is harness trouble (exit 2), never a verdict.
+func (s *Sim) Unsupported(what string) {
+	if s.failure == nil {
+		s.failure = &Failure{Kind: FailHarness, Msg: "unsupported by the simulator: " + what}
+	}
+}
+
 func trimStack(st string) string {
 	lines := strings.Split(st, "\n")
 	if len(lines) > 60 {
@@ -334,6 +361,7 @@ func (s *Sim) schedule(kind Kind, site string) {
 	cur := s.cur
 	cur.site = site
 	for {
+		s.runPollers()
 		r := s.runnable()
 		if len(r) == 0 {
 			if s.fireNextTimer() {
@@ -619,9 +647,34 @@ func (s *Sim) fireNextTimer() bool {
 }
 
 // AddTimer registers fire to run (inside the scheduler, not as a task) at now+d.
-func (s *Sim) AddTimer(d time.Duration, fire func()) {
+func (s *Sim) AddTimer(d time.Duration, fire func()) *TimerH {
 	s.seq++
-	s.timers = append(s.timers, &timer{at: s.now + d, seq: s.seq, fire: fire})
+	if d < 0 {
+		d = 0
+	}
+	t := &timer{at: s.now + d, seq: s.seq, fire: fire}
+	s.timers = append(s.timers, t)
+	return &TimerH{s: s, t: t}
+}
+
+// TimerH is a handle on a pending simulated timer.
+type TimerH struct {
+	s *Sim
+	t *timer
+}
+
+// Cancel removes the timer; it reports whether the timer was still pending.
+func (h *TimerH) Cancel() bool {
+	if h == nil {
+		return false
+	}
+	for i, t := range h.s.timers {
+		if t == h.t {
+			h.s.timers = append(h.s.timers[:i], h.s.timers[i+1:]...)
+			return true
+		}
+	}
+	return false
 }
 
 // Sleep blocks the calling task for d of simulated time.
